@@ -132,3 +132,71 @@ pub fn can_dial_now(manager: &TransportManager, peer: &PeerId) -> bool {
         Some(context) => context.state.can_dial() == crate::transport::manager::peer_state::StateDialResult::Ok,
     }
 }
+
+// ---- full handler alphabet (C05/C06/C10 harnesses)
+
+/// Drive `TransportManager::dial` (it never suspends): `Some(is_ok)`, or `None` if it returned `Pending`.
+pub fn dial_now(manager: &mut TransportManager, peer: PeerId) -> Option<bool> {
+    let mut future = Box::pin(manager.dial(peer));
+    let waker = noop_waker();
+    let mut cx = Context::from_waker(&waker);
+    match std::future::Future::poll(future.as_mut(), &mut cx) {
+        Poll::Ready(result) => Some(result.is_ok()),
+        Poll::Pending => None,
+    }
+}
+
+pub fn on_connection_opened(manager: &mut TransportManager, connection_id: ConnectionId, address: Multiaddr) -> bool {
+    manager.on_connection_opened(SupportedTransport::Tcp, connection_id, address).is_ok()
+}
+
+/// `Ok(Some(peer))`: last transport failed, the failure is reported; `Ok(None)`: other transports still open; `Err`: refused.
+pub fn on_open_failure(manager: &mut TransportManager, connection_id: ConnectionId) -> Result<Option<PeerId>, ()> {
+    manager.on_open_failure(SupportedTransport::Tcp, connection_id).map_err(|_| ())
+}
+
+pub fn on_pending_incoming_connection(manager: &mut TransportManager) -> bool {
+    manager.on_pending_incoming_connection().is_ok()
+}
+
+pub fn next_connection_id(manager: &mut TransportManager) -> ConnectionId {
+    manager.next_connection_id()
+}
+
+pub fn pending_peer(manager: &TransportManager, connection_id: &ConnectionId) -> Option<PeerId> {
+    manager.pending_connections.get(connection_id).copied()
+}
+
+pub fn pending_len(manager: &TransportManager) -> usize {
+    manager.pending_connections.len()
+}
+
+/// (counted inbound, counted outbound) connections of the limits tracker.
+pub fn counted(manager: &TransportManager) -> (usize, usize) {
+    manager.connection_limits.counts_verif()
+}
+
+/// Is `connection_id` counted as (inbound, outbound)?
+pub fn is_counted(manager: &TransportManager, connection_id: &ConnectionId) -> (bool, bool) {
+    manager.connection_limits.contains_verif(connection_id)
+}
+
+/// Put `address` (which must end in `/p2p/<peer>`) with `score` into the peer's address book.
+pub fn add_address(manager: &mut TransportManager, peer: PeerId, address: Multiaddr, score: i32) {
+    manager
+        .peers
+        .write()
+        .entry(peer)
+        .or_default()
+        .addresses
+        .insert(crate::transport::manager::address::AddressRecord::new(&peer, address, score));
+}
+
+/// The peer's best `limit` addresses, in the order `dial` would use them.
+pub fn peer_addresses(manager: &TransportManager, peer: &PeerId, limit: usize) -> Vec<Multiaddr> {
+    manager.peers.read().get(peer).map(|context| context.addresses.addresses(limit)).unwrap_or_default()
+}
+
+pub fn local_peer_id(manager: &TransportManager) -> PeerId {
+    manager.local_peer_id
+}
